@@ -371,7 +371,7 @@ PARTS = {"corruptions": part_corruptions, "mutated": part_mutated}
 REPLAY = {"corruptions": check_case, "mutated": check_mutated}
 KNOWN = {}
 FLOORS = {"nontrivial document": ("uncorrupted", 0.15), "document reuses a nested container": ("uncorrupted", 0.02),
-          "corruption: nesting-cycle": ("", 0.005), "corruption: base-cycle": ("", 0.002)}
+          "corruption: nesting-cycle": ("uncorrupted", 0.1), "corruption: base-cycle": ("uncorrupted", 0.04)}
 
 
 def plan(tier, seed):
